@@ -283,6 +283,36 @@ func evalC15FS(args []string, withDirs bool) string {
 		trace = strings.Join(o.events, ",")
 	}
 	trace += " fds=" + itoa(left)
+	// The same walk once more with the FileSystemOpener handed to the parser AS IT IS: the recording opener above
+	// wraps every file, so code that looks at the concrete type of a File (*os.File: Stat, os.SameFile, ReadFrom)
+	// never meets one there.  The outcome (dictionary, or error class and line) must be the same; a difference is
+	// appended to the result, where the driver's model has nothing to match it.
+	{
+		// (compared: success and the dictionary; else whether it is a ParseError, its line, and whether its cause is a
+		// RecursiveIncludeError — the recording opener reports failed opens with an error type of its own)
+		summary := func(d *dictionary.Dictionary, err error) string {
+			if err != nil {
+				pe, ok := err.(*dictionary.ParseError)
+				if !ok {
+					return "err plain"
+				}
+				_, rec := pe.Inner.(*dictionary.RecursiveIncludeError)
+				if rec {
+					return "err ParseError " + itoa(pe.Line) + " recursive"
+				}
+				return "err ParseError " + itoa(pe.Line)
+			}
+			if d == nil {
+				return "err nil-dictionary"
+			}
+			return "ok " + dpShowDict(d)
+		}
+		raw := dictionary.Parser{Opener: &dictionary.FileSystemOpener{Root: dir}, IgnoreIdenticalAttributes: args[2] == "1"}
+		d2, err2 := raw.ParseFile(root)
+		if a, b := summary(d, err), summary(d2, err2); a != b {
+			trace += " UNWRAPPED-OPENER-DIFFERS(" + strings.ReplaceAll(b, " ", "_") + ")"
+		}
+	}
 	if err != nil {
 		f := dpClassify(err)
 		var pathErr *os.PathError
@@ -624,6 +654,19 @@ func genC15(g *Gen, tier string, emit func(op string, args ...string)) {
 		walk(mk("root", "VALUE a b 1\n$INCLUDE a\nVALUE a c 2\n", "a", "VALUE d e 3\n#"+strings.Repeat("c", 65536)+"\nVALUE f g 4\n"), "root", "0")
 		walk(mk("root", "$INCLUDE a\n", "a", "$INCLUDE b\n", "b", strings.Repeat(" ", 70000)), "root", "0")
 		walk(mk("root", "#"+strings.Repeat("c", 65536)+"\n$INCLUDE a\n", "a", "VALUE a b 1\n"), "root", "0")
+		// one file included a SECOND time after its first include was completed (twice in a row, through another
+		// file first, a diamond) is no cycle — and a real cycle after a completed include still is one; always
+		// through the real file system too, where a file has an identity besides its name (os.SameFile)
+		for _, fs := range []*dpFS{
+			mk("root", "$INCLUDE a\n$INCLUDE a\n", "a", "# x\n"),
+			mk("root", "$INCLUDE a\n$INCLUDE b\n", "a", "$INCLUDE b\n", "b", "# x\n"),
+			mk("root", "$INCLUDE a\n$INCLUDE b\n", "a", "$INCLUDE c\n", "b", "$INCLUDE c\n", "c", "# x\n"),
+			mk("root", "$INCLUDE a\n$INCLUDE b\n", "a", "# x\n", "b", "$INCLUDE b\n"),
+			mk("root", "$INCLUDE a\n$INCLUDE b\n", "a", "$INCLUDE c\n", "b", "$INCLUDE c\n", "c", "$INCLUDE a\n"),
+		} {
+			walk(fs, "root", "0")
+			emit("walkfs", fs.arg(), hx([]byte("root")), "0")
+		}
 		// root not in the file system; the empty file system; empty names; empty files
 		walk(mk("a", "VALUE a b 1\n"), "root", "0")
 		walk(&dpFS{}, "root", "0")
